@@ -113,11 +113,12 @@ def analyses(md, t0):
     A["rmsd_serial"] = lambda t: list(md.rmsd(t, refs[0], 0, parallel=False))
     A["rmsd_subset"] = lambda t: list(md.rmsd(t, refs[0], 0, atom_indices=sub))
     A["superpose"] = lambda t: list(md.Trajectory(t.xyz.copy(), t.topology).superpose(refs[0], 0).xyz)
+    A["superpose_serial"] = lambda t: list(md.Trajectory(t.xyz.copy(), t.topology).superpose(refs[0], 0, parallel=False).xyz)
     A["superpose_subset"] = lambda t: list(md.Trajectory(t.xyz.copy(), t.topology).superpose(refs[0], 0, atom_indices=sub).xyz)
     A["sasa_atom"] = lambda t: list(md.shrake_rupley(t, n_sphere_points=24, mode="atom"))
     A["sasa_residue"] = lambda t: list(md.shrake_rupley(t, n_sphere_points=24, mode="residue"))
-    A["neighbors"] = lambda t: [np.sort(x) for x in md.compute_neighbors(t, 0.45, query, periodic=has_box)]
-    A["neighborlist"] = lambda t: [[np.sort(x) for x in md.compute_neighborlist(t, 0.45, frame=i, periodic=has_box)]
+    A["neighbors"] = lambda t: list(md.compute_neighbors(t, 0.45, query, periodic=has_box))
+    A["neighborlist"] = lambda t: [list(md.compute_neighborlist(t, 0.45, frame=i, periodic=has_box))
                                    for i in range(t.n_frames)]
     A["rg"] = lambda t: list(md.compute_rg(t))
     A["center_of_mass"] = lambda t: list(md.compute_center_of_mass(t))
